@@ -323,7 +323,7 @@ theorem sys_step_total {R : Type} (f : Array E → Array E)
       | ok dx =>
         cases h4 : Vec.sub x dx with
         | error e => exact .inl ⟨e, .inr (.inr (.inr ⟨r, J, jtr, dx, h1, h2, h3, h4⟩))⟩
-        | ok x' => exact .inr ⟨r, J, jtr, dx, x', h1, h2, h3, h4⟩
+        | ok x' => exact .inr ⟨r, J, jtr, dx, x', rfl, rfl, h3, h4⟩
 
 /-- a chain of `k` full steps that did not meet the tolerance is what a run with budget `k`
     performs: it returns `Err(c)` -/
@@ -348,6 +348,16 @@ theorem sys_chain_run {R : Type} (f : Array E → Array E)
       · rw [show k + 1 + m = (k + m) + 1 by omega,
           sys_unfold f jacF normInf leTol (k + m) cur tr h1 h3 h4 h5, h2]
         simpa using e2 m
+
+/-- the points of a chain all have the size of the first -/
+theorem chain_size {R : Type} {f : Array E → Array E}
+    {jacF : Array E → Res (Mat E × List (Array E))} {normInf : Array E → Res R} {leTol : R → Bool}
+    {k : Nat} {x y : Array E} (h : Chain f jacF normInf leTol k x y) : y.size = x.size := by
+  induction h with
+  | refl x => rfl
+  | step hs _ ih =>
+    obtain ⟨r, J, jtr, dx, _, _, _, _, h5⟩ := hs
+    rw [ih, vecSub_size h5]
 
 /-- **the panic branch, class (S)**: the run ends in a panic of class `e` IF AND ONLY IF after
     `k < maxIter` full Newton steps, none of which met the tolerance, the next iteration — at the
@@ -379,8 +389,8 @@ theorem sys_panics_iff_struct {R : Type} (f : Array E → Array E)
           exact ⟨k + 1, c, Nat.succ_lt_succ hk, Chain.step ⟨r, J, jtr, dx, h1, hr, h2, h3, h4⟩ hc, hs⟩
     · rintro ⟨k, c, hk, hc, hs⟩
       obtain ⟨tr', _, e2⟩ := sys_chain_run f jacF normInf leTol k cur c tr hc
-      obtain ⟨m, rfl⟩ : ∃ m, n + 1 = k + (m + 1) := ⟨n - k, by omega⟩
-      rw [e2 (m + 1)]
+      obtain ⟨m, hm⟩ : ∃ m, n + 1 = k + (m + 1) := ⟨n - k, by omega⟩
+      rw [hm, e2 (m + 1)]
       exact sys_step_error f jacF normInf leTol m c tr' hs
 
 /-- **evaluations before a panic, class (S)**.  Assume every returning Jacobian call at a point of
@@ -414,13 +424,7 @@ theorem sys_evals_before_panic {R : Type} (f : Array E → Array E)
   obtain ⟨k', hk', hlen, hf⟩ := sys_bounded f jacF normInf leTol d L hL k cur tr _ tr' hd e1
   have hkk : k' = k := hf rfl
   subst hkk
-  have hcd : c.size = d := by
-    clear e1 hlen hf hk' hs h
-    induction hc with
-    | refl x => exact hd
-    | step hs _ ih =>
-      obtain ⟨r, J, jtr, dx, _, _, _, _, h5⟩ := hs
-      exact ih (by rw [vecSub_size h5]; exact hd)
+  have hcd : c.size = d := by rw [chain_size hc]; exact hd
   have hmul : (k' + 1) * (1 + L) ≤ n * (1 + L) := Nat.mul_le_mul_right _ hk
   have hexp : (k' + 1) * (1 + L) = k' * (1 + L) + 1 + L := by
     rw [Nat.add_mul]; omega
@@ -477,7 +481,8 @@ theorem jacobian_ok_wf (f : Array E → Array E) (point : Array E) (delta : E)
         simp only [bind, Except.bind, pure, Except.pure] at hs
         repeat (split at hs; · cases hs)
         cases hs
-        rename_i hset
+        have hset : ∃ c v, jac.setCol c v = .ok jac' := ⟨_, _, by assumption⟩
+        obtain ⟨_, _, hset⟩ := hset
         obtain ⟨a, b, c⟩ := setCol_ok_shape hw hset
         exact ⟨a, by rw [b, hr], by rw [c, hc]⟩) hr
     simpa using this
